@@ -185,6 +185,10 @@ let () =
           match parse line with
           | L [A "def"; A name; p] -> let q = proc p in Hashtbl.replace procs name q; Hashtbl.replace names q name; print_string "ok\n"
           | L [A "tr"; p; x] -> print_string (sproc (tr_proc (sym x) (proc p)) ^ "\n")
+          | L [A "divguard"; p; i; io; ii; q] -> print_string (sproc (divide_guard_proc (sym i) (sym io) (sym ii) (zz q) (proc p)) ^ "\n")
+          | L [A "divguardok"; p; i; io; ii; q] -> print_string (if divide_guard_ok_proc (sym i) (sym io) (sym ii) (zz q) (proc p) then "ok\n" else "outside\n")
+          | L [A "divperfect"; p; i; io; ii; q] -> print_string (sproc (divide_perfect_proc (sym i) (sym io) (sym ii) (zz q) (proc p)) ^ "\n")
+          | L [A "divperfectok"; p; i; io; ii; q] -> print_string (if divide_perfect_ok_proc (sym i) (sym io) (sym ii) (zz q) (proc p) then "ok\n" else "outside\n")
           | L [A "shift"; p; x; e] -> print_string (sproc (shift_proc (sym x) (expr e) (proc p)) ^ "\n")
           | L [A "shiftok"; p; x; e] -> print_string (if shift_ok_proc (sym x) (expr e) (proc p) then "ok\n" else "outside\n")
           | L [A "pe"; p; x; lit] -> print_string (sproc (pe_proc (sym x) (expr lit) (proc p)) ^ "\n")
